@@ -22,7 +22,7 @@ EXHAUSTIVE = {"quick": ["all strings len<=3 over AC as one repertoire, k=1..3, 4
                            "hierarchical: 4 methods x 2 criteria x t in 1..4 on fixed witnesses"]}
 REQUIRE = {"graph_cc_cases": 15, "graph_community_cases": 18, "empty_neighbour_list_cases": 2, "isolated_node_cases": 15,
            "d0_edge_cases": 10, "series_node_label_cases": 8, "hier_cases": 27, "hier_table_cases": 6, "hier_nondefault_index": 8,
-           "identity_cases": 10, "identity_multi_member": 9, "hier_t_zero_cases": 3}
+           "identity_cases": 10, "identity_multi_member": 9, "hier_t_zero_cases": 3, "asymmetric_neighbour_lists": 3}
 SHARDS = {"quick": 4, "thorough": 16}
 
 
@@ -30,26 +30,38 @@ def self_test():
     O.self_test()
 
 
-def _neighbours(ctx, seqs, k, engine, mode):
+def _neighbours(ctx, seqs, k, engine, mode, max_returns=None):
     import pyrepseq.nn as nn
     fn = {"nearest_neighbor": nn.nearest_neighbor, "kdtree": nn.kdtree, "hash_based": nn.hash_based}[engine]
     kw = {"max_edits": k}
+    if max_returns:
+        kw["max_returns"] = max_returns
     if mode == "hamming":
         kw["custom_distance"] = "hamming"
     return ctx.call(fn, list(seqs), **kw)
 
 
-def k_graph(ctx, seqs, k, engine, mode, method, labels="list"):
+def k_graph(ctx, seqs, k, engine, mode, method, labels="list", max_returns=None):
     import numpy as np
     import pandas as pd
     import pyrepseq as prs
-    nb = _neighbours(ctx, seqs, k, engine, mode)
+    nb = _neighbours(ctx, seqs, k, engine, mode, max_returns)
     if not nb.ok:
         ctx.count("search_failed")
         return
     trip = nb.value
     n = len(seqs)
     want_trip = O.neigh_self(seqs, k, "lev" if mode == "lev" else "ham")
+    if max_returns:
+        # truncated neighbour lists (one orientation of a pair may be missing): the graph is what the search returned;
+        # every returned edge is a true neighbour (C11 decides that), connectivity is judged on the returned edges
+        got_trip = O.canon_triplets(trip)
+        if any(t not in want_trip for t in got_trip):
+            ctx.count("search_failed")
+            return
+        if any((j, i, d) not in got_trip for (i, j, d) in got_trip):
+            ctx.count("asymmetric_neighbour_lists")
+        want_trip = got_trip
     edges = [(i, j) for (i, j, d) in want_trip]
     root = O.components(n, edges)
     sizes = collections.Counter(root)
@@ -263,8 +275,11 @@ def generate(tier, seed):
         k = rng.choice([1, 1, 2]) if eng == "hash_based" else rng.choice([1, 2, 3])
         if eng == "hash_based" and k == 2 and max(len(s) for s in seqs) > 5:
             k = 1
-        yield "graph", {"seqs": seqs, "k": k, "engine": eng, "mode": "hamming" if i % 5 == 0 else "lev", "method": METHODS[i % 4] if i % 2 else "cc",
-                        "labels": ["list", "series", "ndarray", "series_shifted"][i % 4]}, i < 50
+        p = {"seqs": seqs, "k": k, "engine": eng, "mode": "hamming" if i % 5 == 0 else "lev", "method": METHODS[i % 4] if i % 2 else "cc",
+             "labels": ["list", "series", "ndarray", "series_shifted"][i % 4]}
+        if eng == "kdtree" and i % 2 == 0:
+            p["max_returns"] = 1 + (i // 6) % 2
+        yield "graph", p, i < 50
     wit = ["CASSF", "CASF", "CAWF", "CASSLF", "CASSF", "CDDDDDF", "CAW", "CDDDDF"]
     for method in ("single", "complete", "average", "weighted"):
         for crit, ts in (("distance", [0, 0.5, 1, 2, 3, 4] if thorough else [0, 1, 3]), ("maxclust", [1, 2, 3, 4] if thorough else [2, 3])):
